@@ -123,6 +123,10 @@ impl Tape {
         &items[self.draw(items.len() as u64) as usize]
     }
 
+    pub fn pick_str<'a>(&mut self, items: &[&'a str]) -> &'a str {
+        items[self.draw(items.len() as u64) as usize]
+    }
+
     pub fn exhausted_replay(&self) -> bool {
         match &self.replay {
             Some(v) => self.pos > v.len(),
